@@ -102,6 +102,14 @@ SweepPrefix == << [a |-> "BeginBlock", dt |-> 1000],
                   TxFee(<<BRec("A1", 1)>>, [nund |-> 1]), TxFee(<<BRec("A1", 1)>>, [nund |-> 1]),
                   EndEv, ComEv, [a |-> "BeginBlock", dt |-> 1000] >>
 
+\* two WRKChains and two BEACONs of two owners, the first of each with a record; an open block follows
+PreTwo == << [a |-> "BeginBlock", dt |-> 1000],
+             TxFee(<<[t |-> "WReg", owner |-> "A1", moniker |-> "m", name |-> "n", genesis |-> "g", type |-> "t"]>>, [nund |-> 4]),
+             TxFee(<<[t |-> "WReg", owner |-> "A2", moniker |-> "m2", name |-> "n", genesis |-> "g", type |-> "t"]>>, [nund |-> 4]),
+             TxFee(<<[t |-> "BReg", owner |-> "A1", moniker |-> "m", name |-> "n"]>>, [nund |-> 4]),
+             TxFee(<<[t |-> "BReg", owner |-> "A2", moniker |-> "m2", name |-> "n"]>>, [nund |-> 4]),
+             TxFee(<<WRec("A1", 1, 1)>>, [nund |-> 1]), TxFee(<<BRec("A1", 1)>>, [nund |-> 1]),
+             EndEv, ComEv, [a |-> "BeginBlock", dt |-> 1000] >>
 NoPre == <<>>
 SmallCap == 2      \* export cap of the model (the code keeps the newest 20,000)
 PresetsQuick == << [feeReg |-> 4, feeRec |-> 1, feePur |-> 1, denom |-> "nund", def |-> 2, max |-> 2],
